@@ -1,6 +1,6 @@
 //! Shared pieces of simdcheck: ISA selection/execution, element-type trait,
 //! aligned scratch buffers.
-use rten_simd::verif::{IsaKind, isa_available, set_forced_isa};
+use rten_simd::verif::{IsaKind, isa_available};
 use rten_simd::{SimdOp, f16};
 
 pub const ALL_ISAS: [IsaKind; 3] = [IsaKind::Generic, IsaKind::Avx2, IsaKind::Avx512];
@@ -80,15 +80,6 @@ pub fn run_on<Op: SimdOp>(kind: IsaKind, op: Op) -> Op::Output {
     #[cfg(not(target_arch = "x86_64"))]
     assert!(kind == IsaKind::Generic);
     op.eval(rten_simd::isa::GenericIsa::new())
-}
-
-/// Evaluate `op` through the public `dispatch` path with the process-wide
-/// forced-ISA hook. Only for single-threaded sections.
-pub fn run_hooked<Op: SimdOp>(kind: IsaKind, op: Op) -> Op::Output {
-    assert!(set_forced_isa(Some(kind)), "ISA unavailable");
-    let out = op.dispatch();
-    set_forced_isa(None);
-    out
 }
 
 /// Element types of SIMD vectors.
@@ -172,9 +163,6 @@ impl Buf {
     pub fn bytes(n: usize) -> Buf {
         Buf { v: vec![0u64; n.div_ceil(8)] }
     }
-    pub fn of<T: Copy>(n: usize) -> Buf {
-        Buf::bytes(n * std::mem::size_of::<T>())
-    }
     pub fn as_slice<T: Copy>(&self, n: usize) -> &[T] {
         &cast_slice::<u64, T>(&self.v)[..n]
     }
@@ -185,16 +173,6 @@ impl Buf {
         let w = u64::from_ne_bytes([byte; 8]);
         self.v.iter_mut().for_each(|x| *x = w);
     }
-}
-
-/// Raw (bit pattern) value of element `i` of a byte buffer holding elements of
-/// `size` bytes.
-pub fn raw_at(bytes: &[u8], size: usize, i: usize) -> u64 {
-    let mut v = 0u64;
-    for k in 0..size {
-        v |= (bytes[i * size + k] as u64) << (8 * k);
-    }
-    v
 }
 
 pub fn hex(x: u64, bytes: usize) -> String {
